@@ -46,7 +46,7 @@ def evaluate(acc, case, prop, nontrivial_fn, layout=printer.PLAIN,
     nontrivial = bool(nontrivial_fn(outcome, case))
     labels = sorted(outcome.labels)
     sample = None
-    if nontrivial and acc.evaluations % sample_every == 0:
+    if nontrivial and len(acc.samples) < 3:
         sample = {'script': outcome.text,
                   'population': [[s['label'], s['group'], s['location'],
                                   s.get('kind', 'plain')]
